@@ -3,14 +3,22 @@ namespace Yaclib.CoSharedMutex
 
 set_option maxHeartbeats 4000000 in
 theorem inv_step_1 {cfg s l s'} (hi : Inv cfg s) (hs : Step s l s') (hg : grpOf l = 1) : Inv cfg s' := by
-  cases hi
   cases hs with
-  | spinLoad c k sawFree h => cases k <;> cases sawFree <;> simp only [Bool.not_true, Bool.not_false] <;> sm_dbg [List.count_le_length]
+  | spinLoad c k sawFree h =>
+      cases hi
+      cases k <;> cases sawFree <;> simp only [Bool.not_true, Bool.not_false] <;> sm_auto [List.count_le_length]
   | rdUnlock c h hs =>
+      have hpb := pendBy_none_of_held hi hs (by rw [h]; rfl)
+      have hpd := hi.pend_none hpb
+      have hc1 : s.ifl.count c = 1 := by have := hi.l_ifl c; rw [h] at this; simpa [Pc.isIFL] using this
+      have hl := len_pos_of_count hc1
+      have hWne : s.pass = 0 → s.W ≠ 0 := by
+        intro hp0 hW0; have := (hi.j1 hW0).1; omega
+      cases hi
       by_cases hp : s.pass = 0
       · cases hr : s.cfg.rfifo <;>
-          simp only [doRdUnlock, hp, hr, ne_eq, not_true_eq_false, Bool.false_eq_true, ↓reduceIte] <;> sm_dbg [List.count_le_length]
-      · simp only [doRdUnlock, hp, ne_eq, not_false_eq_true, ↓reduceIte]; sm_dbg [List.count_le_length]
+          simp only [doRdUnlock, hp, hr, ne_eq, not_true_eq_false, Bool.false_eq_true, ↓reduceIte] <;> sm_auto [List.count_le_length]
+      · simp only [doRdUnlock, hp, ne_eq, not_false_eq_true, ↓reduceIte]; sm_auto [List.count_le_length]
   | _ => simp [grpOf] at hg
 
 end Yaclib.CoSharedMutex
